@@ -392,6 +392,13 @@ func runC07(c *Ctx) {
 											okLoop = (b.Op == token.NEQ) == (truth == inBody)
 										}
 									}
+									// the same test on the length of the field
+									if v, isZero, okZ := core.ZeroTest(hif.Cond, true); okZ {
+										if lc, isC := v.(*ssa.Call); isC && core.CalleeName(&lc.Call) == "builtin.len" && cutChainRoot(lc.Call.Args[0], cutS, 0) == ssa.Value(hosts) {
+											inBody := core.LoopBody(phi.Block())[hif.Block().Succs[0]]
+											okLoop = !isZero == inBody
+										}
+									}
 									if !okLoop {
 										good = false
 									}
@@ -1199,14 +1206,11 @@ func c08StorageAdd(c *Ctx, f *ssa.Function) {
 		}
 		nw++
 		okG := false
-		for _, g := range core.GuardsOf(in) {
-			cond, truth := core.StripNot(g.Cond, g.Truth)
-			if b, ok := cond.(*ssa.BinOp); ok {
-				if call, ok := b.X.(*ssa.Call); ok {
+		for _, g := range core.Facts(f).At(in.Block()) {
+			if v, isZero, ok := core.ZeroTest(g.Cond, g.Truth); ok && !isZero {
+				if call, ok := v.(*ssa.Call); ok {
 					if bi, ok := call.Call.Value.(*ssa.Builtin); ok && bi.Name() == "len" && namesLoad(call.Call.Args[0]) {
-						if k, isK := core.ConstInt(b.Y); isK && k == 0 && ((b.Op == token.EQL && !truth) || (b.Op == token.NEQ && truth) || (b.Op == token.GTR && truth)) {
-							okG = true
-						}
+						okG = true
 					}
 				}
 			}
